@@ -688,6 +688,43 @@ class Body:
             self._path = None
         return out
 
+    def _field_overlays(self, l, after, before, depth, seen):
+        """{field index: value term} for the single-field writes to local l (directly or through a unique `&mut l`) on the current
+        path between positions `after` and `before`; the last write to a field wins"""
+        pth = self._path
+        pd = self.partial_defs()
+        defs = self.defs()
+        refs = set()
+        for r_, ds_ in defs.items():
+            if len(ds_) == 1 and ds_[0][0] == 'stmt' and isinstance(ds_[0][3], dict) and 'ref' in ds_[0][3] and ds_[0][3].get('mut') and ds_[0][3]['ref'].get('l') == l and not ds_[0][3]['ref'].get('pr'):
+                refs.add(r_)
+        for _ in range(3):
+            for r_, ds_ in defs.items():
+                if r_ in refs or len(ds_) != 1 or ds_[0][0] != 'stmt' or not isinstance(ds_[0][3], dict) or 'use' not in ds_[0][3]:
+                    continue
+                u_ = ds_[0][3]['use'].get('mv') or ds_[0][3]['use'].get('cp')
+                if isinstance(u_, dict) and not u_.get('pr') and u_.get('l') in refs:
+                    refs.add(r_)
+        ws = []
+        for d in pd.get(l, []):
+            if d[0] == 'stmt' and d[1] in pth and len(d[4].get('pr') or []) == 1 and isinstance(d[4]['pr'][0], dict) and isinstance(d[4]['pr'][0].get('f'), int):
+                ws.append(((pth[d[1]], d[2]), d[4]['pr'][0]['f'], d))
+        for r_ in refs:
+            for d in pd.get(r_, []):
+                if d[0] == 'stmt' and d[1] in pth and len(d[4].get('pr') or []) == 2 and d[4]['pr'][0] == '*' and isinstance(d[4]['pr'][1], dict) and isinstance(d[4]['pr'][1].get('f'), int):
+                    ws.append(((pth[d[1]], d[2]), d[4]['pr'][1]['f'], d))
+        out = {}
+        for pos, fi, d in sorted(ws, key=lambda w: w[0]):
+            if not (after < pos < before):
+                continue
+            old = getattr(self, '_use_pos', None)
+            self._use_pos = pos
+            try:
+                out[fi] = self._origin_def(('stmt', d[1], d[2], d[3]), depth + 1, seen)
+            finally:
+                self._use_pos = old
+        return out
+
     def _field_write_on_path(self, p, depth, seen):
         """path mode only: `l.f` (or `l.f.g..`) read after `l.f = v` — directly or through a `&mut l` handed to a spliced helper — is v"""
         pth = getattr(self, '_path', None)
@@ -804,9 +841,20 @@ class Body:
                 old = getattr(self, '_use_pos', None)
                 self._use_pos = dpos(d)
                 try:
-                    return self._origin_def(d, depth + 1, seen | {l})
+                    base = self._origin_def(d, depth + 1, seen | {l})
                 finally:
                     self._use_pos = old
+                # a struct built and then filled in (`s.f = v`, also through a `&mut s` handed to a spliced helper): overlay the
+                # fields written between the construction and the point of use
+                if base and base[0] == 'agg' and isinstance(base[1], dict) and base[1].get('kind') in ('adt', 'tuple') and not base[1].get('variant', None) in ('Some', 'Ok', 'Err') and depth < 40:
+                    over = self._field_overlays(l, dpos(d), lim, depth, seen | {l})
+                    if over:
+                        ops = list(base[2])
+                        for fi, t_ in over.items():
+                            if fi < len(ops):
+                                ops[fi] = t_
+                        base = ('agg', base[1], ops) + tuple(base[3:])
+                return base
             if ds and l not in seen and not (1 <= l <= self.argc) and l != 0:
                 # assigned before the path begins: whatever it was computed from was, too
                 old = getattr(self, '_use_pos', None)
